@@ -14,17 +14,31 @@ def _env():
     return env
 
 
+def _run_group(cmd, cwd, timeout):
+    """run a command in its own process group; on timeout the whole group (cargo-kani, kani-driver, cbmc) is killed"""
+    import signal
+    p = subprocess.Popen(cmd, cwd=cwd, env=_env(), stdout=subprocess.PIPE, stderr=subprocess.STDOUT, text=True, start_new_session=True)
+    try:
+        out, _ = p.communicate(timeout=timeout)
+        return out, False
+    except subprocess.TimeoutExpired:
+        try:
+            os.killpg(p.pid, signal.SIGKILL)
+        except ProcessLookupError:
+            pass
+        out, _ = p.communicate()
+        return out or '', True
+
+
 def run_kani(harnesses, jobs=12, timeout=1500):
     shutil.copy(os.path.join(os.environ.get('VERIF_REPO', '/repo'), 'Cargo.lock'), os.path.join(KANI_DIR, 'Cargo.lock'))
     cmd = ['cargo', 'kani', '--target-dir', TARGET, '-j', str(jobs), '--output-format', 'terse']
     for h in harnesses:
         cmd += ['--harness', h]
     t = time.time()
-    try:
-        p = subprocess.run(cmd, cwd=KANI_DIR, env=_env(), stdout=subprocess.PIPE, stderr=subprocess.STDOUT, text=True, timeout=timeout)
-        out = p.stdout
-    except subprocess.TimeoutExpired as e:
-        return {'error': 'timeout', 'wall_s': time.time() - t, 'out': (e.stdout or b'').decode(errors='replace')[-3000:] if isinstance(e.stdout, bytes) else str(e.stdout)[-3000:]}
+    out, timed_out = _run_group(cmd, KANI_DIR, timeout)
+    if timed_out:
+        return {'error': 'timeout', 'wall_s': time.time() - t, 'out': out[-3000:]}
     wall = time.time() - t
     res = {'wall_s': wall, 'failed': [], 'ok': [], 'times': {}, 'covers': {}}
     m = re.search(r'Complete - (\d+) successfully verified harnesses, (\d+) failures, (\d+) total', out)
